@@ -150,10 +150,10 @@ def layout_path_scenario(chk):
     # (layout engine only, line by line) and (every source line of the package, sampled)
     for files, pairs_ in (([LAY.__file__, DTY.__file__], pairs), (allfiles, pairs[:2] if q else pairs)):
       for a, b in pairs_:
-        _, _, nsteps = sched.run_with_preemption(job(a), job(b), None, files)
+        _, _, nsteps = sched.run_with_preemption(job(a), job(b), None, files, locks=module_locks())
         stride = max(1, nsteps // (150 if q else 1500))
         for k in range(1, nsteps + 1, stride):
-            ra, rb, _ = sched.run_with_preemption(job(a), job(b), k, files)
+            ra, rb, _ = sched.run_with_preemption(job(a), job(b), k, files, locks=module_locks())
             calls = [{'t': 1, 'seq': texts[seq[a]], 'got': got(ra)}, {'t': 2, 'seq': texts[seq[b]], 'got': got(rb)}]
             cid = len(cases) + 1
             cases.append({'id': cid, 'calls': calls})
@@ -217,14 +217,14 @@ def registry_path_scenario(chk):
     for a, b in pairs:
         sc = fresh()
         try:
-            _, _, nsteps = sched.run_with_preemption(job(sc, a), job(sc, b), None, [PP.__file__])
+            _, _, nsteps = sched.run_with_preemption(job(sc, a), job(sc, b), None, [PP.__file__], locks=module_locks())
         finally:
             drop(sc)
         stride = max(1, nsteps // (120 if q else 2000))
         for k in range(1, nsteps + 1, stride):
             sc = fresh()
             try:
-                ra, rb, _ = sched.run_with_preemption(job(sc, a), job(sc, b), k, [PP.__file__])
+                ra, rb, _ = sched.run_with_preemption(job(sc, a), job(sc, b), k, [PP.__file__], locks=module_locks())
             finally:
                 drop(sc)
             cid = len(cases) + 1
